@@ -55,7 +55,10 @@ var (
 
 	// DummyInputPort is a port made up from DevNull and ClosedChan, suitable as
 	// a placeholder input port.
-	DummyInputPort = &Port{File: DevNull, Chan: ClosedChan}
+	DummyInputPort = &Port{File: DevNull, Chan: ClosedChan,
+		// Writing values to it throws an exception instead of sending on the
+		// closed channel.
+		sendStop: closedSendStop, sendError: &ErrPortDoesNotSupportValueOutput}
 	// DummyOutputPort is a port made up from DevNull and BlackholeChan,
 	// suitable as a placeholder output port.
 	DummyOutputPort = &Port{File: DevNull, Chan: BlackholeChan}
@@ -264,7 +267,9 @@ func PortsFromStdFiles(prefix string) ([]*Port, func()) {
 func PortsFromFiles(files [3]*os.File, prefix string) ([]*Port, func()) {
 	port1, cleanup1 := FilePort(files[1], prefix)
 	port2, cleanup2 := FilePort(files[2], prefix)
-	return []*Port{{File: files[0], Chan: ClosedChan}, port1, port2}, func() {
+	port0 := &Port{File: files[0], Chan: ClosedChan,
+		sendStop: closedSendStop, sendError: &ErrPortDoesNotSupportValueOutput}
+	return []*Port{port0, port1, port2}, func() {
 		cleanup1()
 		cleanup2()
 	}
@@ -287,6 +292,13 @@ type valueOutput struct {
 }
 
 func (vo valueOutput) Put(v any) error {
+	// Check sendStop first: the data channel of an input-only port is a closed
+	// channel, and sending on it would panic.
+	select {
+	case <-vo.sendStop:
+		return *vo.sendError
+	default:
+	}
 	select {
 	case vo.data <- v:
 		return nil
